@@ -57,7 +57,8 @@ func (s SessionCrypter) Encrypt(rand io.Reader, payload any) (any, error) {
 	return mac0.Tag(), nil
 }
 
-// Decrypt a tagged COSE Encrypt0 or Mac0 object.
+// Decrypt a tagged COSE Encrypt0 or Mac0 object. Depending on the suite, only
+// a plain COSE_Encrypt0 or only one wrapped by COSE_Mac0 is accepted.
 func (s SessionCrypter) Decrypt(rand io.Reader, r io.Reader) ([]byte, error) {
 	// Unmarshal a raw CBOR tag
 	var tag cbor.Tag[cbor.RawBytes]
@@ -69,11 +70,17 @@ func (s SessionCrypter) Decrypt(rand io.Reader, r io.Reader) ([]byte, error) {
 	var enc0 cose.Encrypt0[cbor.RawBytes, []byte]
 	switch tag.Num {
 	case cose.Encrypt0TagNum:
+		if s.Cipher.MacAlg != 0 {
+			return nil, fmt.Errorf("decrypted value must be a COSE_Mac0 for cipher suite %s", s.ID)
+		}
 		if err := cbor.Unmarshal([]byte(tag.Val), &enc0); err != nil {
 			return nil, fmt.Errorf("error decoding COSE_Encrypt0: %w", err)
 		}
 
 	case cose.Mac0TagNum:
+		if s.Cipher.MacAlg == 0 {
+			return nil, fmt.Errorf("decrypted value must be a COSE_Encrypt0 for cipher suite %s", s.ID)
+		}
 		var mac0 cose.Mac0[cose.Encrypt0[cbor.RawBytes, []byte], []byte]
 		if err := cbor.Unmarshal([]byte(tag.Val), &mac0); err != nil {
 			return nil, fmt.Errorf("error decoding COSE_Mac0: %w", err)
